@@ -201,11 +201,13 @@ Lemma bind_params_go (l : list (str * value)) : forall sc0 s0,
 Proof.
   induction l as [|[p v] l IH]; intros sc0 s0; cbn [fold_left].
   - exists s0. cbn [map length seq combine]. rewrite !app_nil_r. auto.
-  - unfold alloc_cell at 1. cbn [snd fst].
+  - match goal with |- context [fold_left ?F l ?init] =>
+      change init with (sc0 ++ [(p, length (st_cells s0))], set_cells (st_cells s0 ++ [v]) s0) end.
     destruct (IH (sc0 ++ [(p, length (st_cells s0))]) (set_cells (st_cells s0 ++ [v]) s0)) as (s1 & E & A & B & C).
-    exists s1. rewrite E. cbn [set_cells st_cells st_heap st_globals] in *. rewrite app_length in E |- *. cbn [length] in *.
+    exists s1. rewrite E. cbn [set_cells st_cells st_heap st_globals] in *. rewrite app_length. cbn [length].
+    replace (length (st_cells s0) + 1)%nat with (S (length (st_cells s0))) by lia.
     split; [|split; [|split; assumption]].
-    + cbn [map fst length seq combine]. rewrite <- app_assoc. cbn [app]. f_equal. f_equal. f_equal. f_equal. lia.
+    + cbn [map fst length seq combine]. rewrite <- app_assoc. reflexivity.
     + rewrite A, <- app_assoc. reflexivity.
 Qed.
 
